@@ -178,8 +178,15 @@ def program(rnd):
     mc = [l for l in lines if l.startswith("markClass")]
     rest = [l for l in lines if not l.startswith("markClass")]
     fea = "\n".join(head + mc + rest + [gdef]) + "\n"
+    # REQUIRED features (set on the compiled table: feaLib can only make the alphabetically first tag land at index 0):
+    # FeatureList position first / second / last, listed or not listed in FeatureIndex as well, in the default
+    # and/or the per-language systems
+    required = None
+    if rnd.random() < 0.45:
+        required = {"where": rnd.choice(["first", "first", "second", "last"]), "also_listed": rnd.random() < 0.3,
+                    "systems": rnd.choice(["all", "default", "languages"]), "seed": rnd.randrange(1 << 30)}
     return {"glyphs": glyphs, "n_mapped": n_mapped, "fea": fea, "variable": variable, "tags": tags, "scripts": scripts,
-            "marks": marks_top + marks_bot}
+            "marks": marks_top + marks_bot, "required": required}
 
 
 def build(prog):
@@ -212,6 +219,36 @@ def build(prog):
         fb.setupFvar(axes=[("wght", 100, 400, 900, "Weight")], instances=[])
         fb.setupGvar({g: [] for g in order})
     fb.addOpenTypeFeatures(prog["fea"])
+    prog["required_tags"] = _make_required(fb.font, prog.get("required"))
     b = io.BytesIO()
     fb.save(b)
     return b.getvalue()
+
+
+def _make_required(font, spec):
+    """Turn one GSUB feature record into the required feature of some language systems. -> [tag] or []"""
+    if not spec or "GSUB" not in font:
+        return []
+    import random
+
+    rnd = random.Random(spec["seed"])
+    gsub = font["GSUB"].table
+    recs = gsub.FeatureList.FeatureRecord
+    if not recs:
+        return []
+    idx = {"first": 0, "second": min(1, len(recs) - 1), "last": len(recs) - 1}[spec["where"]]
+    done = False
+    for sr in gsub.ScriptList.ScriptRecord:
+        systems = []
+        if spec["systems"] in ("all", "default") and sr.Script.DefaultLangSys:
+            systems.append(sr.Script.DefaultLangSys)
+        if spec["systems"] in ("all", "languages"):
+            systems += [l.LangSys for l in sr.Script.LangSysRecord]
+        for ls in systems:
+            if idx in ls.FeatureIndex and ls.ReqFeatureIndex == 0xFFFF and rnd.random() < 0.85:
+                if not spec["also_listed"]:
+                    ls.FeatureIndex = [f for f in ls.FeatureIndex if f != idx]
+                    ls.FeatureCount = len(ls.FeatureIndex)
+                ls.ReqFeatureIndex = idx
+                done = True
+    return [recs[idx].FeatureTag] if done else []
